@@ -20,10 +20,10 @@ import (
 // The library is built with its sync, sync/atomic, channel and go-statement
 // operations rewritten onto the cooperative verifsched scheduler (overlay,
 // tags verif,debug,vsched). Each scenario runs 2-3 controlled goroutines; the
-// explorer enumerates EVERY schedule within the preemption bound (iterative
-// context bounding: a switch away from a goroutine that could continue costs
-// one deviation; switches at blocking points are free), plus pool hit/miss
-// and select choices. Oracle per schedule: no deadlock, goroutine leak or
+// explorer enumerates EVERY schedule within the deviation bound (delay
+// bounding: a switch away from a goroutine that could continue, the choice of
+// a goroutine other than the lowest-id enabled one at a blocking point, and a
+// pool miss each cost one deviation; select choices are free). Oracle per schedule: no deadlock, goroutine leak or
 // panic, and the observable result equals the serial run's.
 
 type KRow struct {
@@ -574,7 +574,7 @@ func init() {
 		Rule: "7 scenarios on the real library under the cooperative scheduler - S1 asyncPages consumer sequences (all sequences of <=3 (4 thorough) of ReadPage / SeekToRow(0|5|11) / Close, plus use after Close) against the readPages goroutine; S2 async GenericReader with seeks; S3 two goroutines sharing one File opened with SkipPageIndex+SkipBloomFilters (lazy CAS-published offset index, column index, bloom filter, seek+read); S4 two ConcurrentRowGroupWriters filled concurrently, committed in order; S5 an independent writer next to a reader / another writer sharing the process-wide pools (pool hit/miss chosen by the explorer, poison on release); S6 one goroutine per ColumnWriter; S8 two goroutines on one codec value - x EVERY schedule within the deviation bound (1 quick, 2 thorough): a deviation is a preemption, the choice of a goroutine other than the lowest-id enabled one at a blocking point, or a pool miss; select choices are enumerated freely; " +
 			"states = distinct scheduler state hashes, transitions = scheduling steps; non-trivial = every distinct schedule",
 		Assumptions: []string{
-			"scheduling points are the library's sync / sync.atomic / channel / go operations (sequential consistency at that granularity); plain-memory data races are outside the cooperative scheduler's view and are looked for by the free-running -race pass of the same scenario bodies (sampling, see DESIGN.md)",
+			"scheduling points are the library's sync / sync.atomic / channel / go operations (sequential consistency at that granularity); plain-memory data races are outside the cooperative scheduler's view and are looked for by the free-running race-detector pass of the same scenario bodies (sampling; coverage.supplement)",
 			"goroutines inside third-party codecs are not controlled",
 		},
 		Bound: func(tier string) int {
@@ -583,7 +583,10 @@ func init() {
 			}
 			return 1
 		},
-		Run:      c15Run,
-		Variants: func(string) []string { return []string{"sched"} },
+		Run:        c15Run,
+		Variants:   func(string) []string { return []string{"sched"} },
+		Extra:      []string{"race"},
+		Aux:        c15RaceAux,
+		Supplement: c15Supplement,
 	})
 }
